@@ -29,6 +29,12 @@ rule("C07.x", "a running offset of the variable numbering advances by the number
               "`continue` skips the update for an object whose variables exist (an asset without mapping rows - an order book with all "
               "orders outside the grid - still has its variables in c, l, u)", floor=1, props=["C07", "C09"])
 
+rule("C07.aa", "a wrapper that adds a variable to the problem of what it wraps labels the new mapping row with the variable's position in "
+               "c (a count of variables), never with 'largest label + 1': the wrapped problem may end with variables that have no mapping "
+               "row (orders outside the horizon)", floor=1, props=["C07", "C04", "C16"])
+rule("C07.ab", "c, l and u of a set-up keep one entry per variable label the mapping was built for: once mapping rows carry labels, the "
+               "vectors are not thinned out with a mask / selection (the labels would point past the end or at other variables)", floor=1)
+
 VAR, ROW = "VAR", "ROW"
 VARC = ("c", "l", "u", "x")
 ROWC = ("b", "cType")
@@ -138,7 +144,7 @@ def _shape_args(call):
     return None
 
 
-@analysis("counts", ["C07.q", "C17.g", "C07.x"])
+@analysis("counts", ["C07.q", "C17.g", "C07.x", "C07.aa", "C07.ab"])
 def run(ctx):
     p = ctx.p
     n_q = n_g = 0
@@ -249,6 +255,80 @@ def run(ctx):
                        "variables are in c, l and u but the numbering of everything that follows does not account for them - the assets "
                        "listed after it point at its costs and bounds (the result depends on the order of the assets)" % (
                            au.short(st, 50), au.short(skips[0].test, 60) if skips else ""), node=(skips[0] if skips else st))
+    # ================================================================= C07.aa label of a mapping row added by a wrapper
+    n_aa = 0
+    for fn in sorted(p.all_functions(), key=lambda f: f.qualname):
+        if fn.parent is not None or fn.cls is None or fn.cls.name not in ("ScaledAsset", "StructuredAsset", "LinkedAsset", "Portfolio"):
+            continue
+        cn = None
+        for st in au.walk_stmts(fn.body):
+            if not (isinstance(st, ast.Assign) and len(st.targets) == 1 and isinstance(st.targets[0], ast.Subscript)):
+                continue
+            t = st.targets[0]
+            if not (isinstance(t.value, ast.Attribute) and t.value.attr == "loc" and not isinstance(t.slice, (ast.Tuple, ast.Slice, ast.Compare))):
+                continue
+            frame = t.value.value
+            if not ((isinstance(frame, ast.Attribute) and frame.attr == "mapping") or (isinstance(frame, ast.Name) and _is_mapping_local(ctx, fn, frame, st))):
+                continue
+            lab = ctx.resolve(fn, t.slice, st)
+            from_labels = any(isinstance(x, ast.Attribute) and x.attr == "index" for x in au.walk_local(lab)) or \
+                any(isinstance(x, ast.Call) and isinstance(x.func, ast.Name) and x.func.id == "len" and x.args and au.U(x.args[0]) == au.U(frame) for x in au.walk_local(lab))
+            cn = cn or Counter(ctx, fn)
+            got = cn.count(lab, st)
+            if not from_labels and got not in (VAR, ROW):
+                continue
+            n_aa += 1
+            ctx.ob("C07.aa", fn, au.short(st, 80), got == VAR and not from_labels,
+                   "the new row is labelled %s, which is %s: it is the number of the new variable only if the last variable of the wrapped problem "
+                   "has a mapping row. An order book whose last order lies outside the horizon ends with a variable without rows - the row of the "
+                   "new variable then lands on that dead variable, its own costs have no row (the reported value differs from the sum of the "
+                   "cash-flow table) and the portfolio attaches its column to the wrong variable" % (
+                       au.short(lab, 40), "derived from the labels already in the mapping" if from_labels else "a number of rows"), node=st,
+                   ok_detail="%s is a number of variables" % au.short(lab, 40))
+    if n_aa == 0:
+        ctx.ob("C07.aa", "package", "mapping rows added by wrappers", None, "no wrapper adds a mapping row by label")
+
+    # ================================================================= C07.ab carriers are not thinned out once labels exist
+    n_ab = 0
+    for fn in sorted(p.all_functions(), key=lambda f: f.qualname):
+        if fn.parent is not None or fn.name != "setup_optim_problem" or fn.cls is None:
+            continue
+        roles = local_roles(fn)
+        if not roles:
+            continue
+        var_locals = {nm for nm, r in roles.items() if r in ("c", "l", "u")} if isinstance(roles, dict) else set()
+        # the first statement that writes labels / rows of a mapping
+        map_lines = [st.lineno for st in au.walk_stmts(fn.body) if isinstance(st, ast.Assign) and any(
+            (isinstance(t0, ast.Subscript) and au.const_str(t0.slice) in ("time_step", "var_name", "asset")) or
+            (isinstance(t0, ast.Name) and "mapping" == role(t0, roles)) for t0 in st.targets)]
+        if not map_lines:
+            continue
+        first_map = min(map_lines)
+        for st in au.walk_stmts(fn.body):
+            if not isinstance(st, ast.Assign) or st.lineno <= first_map:
+                continue
+            pairs = []
+            for t0 in st.targets:
+                if isinstance(t0, (ast.Tuple, ast.List)) and isinstance(st.value, (ast.Tuple, ast.List)) and len(t0.elts) == len(st.value.elts):
+                    pairs += list(zip(t0.elts, st.value.elts))
+                else:
+                    pairs.append((t0, st.value))
+            for t0, v in pairs:
+                r = role(t0, roles)
+                if r not in ("c", "l", "u") or not isinstance(v, ast.Subscript) or role(v.value, roles) != r:
+                    continue
+                sl = v.slice
+                if isinstance(sl, ast.Slice) and sl.lower is None and sl.upper is None:
+                    continue
+                n_ab += 1
+                ctx.ob("C07.ab", fn, au.short(st, 80), False,
+                       "%s is replaced by a selection of itself (%s) after the mapping rows were given their labels: the labels keep numbering the "
+                       "variables as they were before - rows of later variables point at other variables or past the end of the vectors (an "
+                       "order outside the horizon listed before one inside it: the rows of the second point at variable 4 of 3)" % (
+                           r, au.short(v, 40)), node=st)
+    ctx.ob("C07.ab", "package", "selections of c / l / u after the mapping was labelled", True,
+           ok_detail="%d selections found" % n_ab)
+
     ctx.require(n_x >= 1, "no running offset of variable counts found", rules=["C07.x"])
     ctx.require(n_q >= 15, "fewer than 15 typed count uses found", rules=['C07.q'])
     ctx.require(n_g >= 1, "no typed count use found in the stochastic extension", rules=['C17.g'])
